@@ -54,7 +54,7 @@ func main() {
 		}
 	}
 	wg.Wait()
-	c.Finish("linear chains from seeded adversarial mixes; per block four monitors on twin processes: (1) block rebuilt without the rejected candidates must be identical; (2) for ERROR receipts the full-dump diff between prefix[:i] and prefix[:i+1] must be exactly nonce+fee; (3) for plain successful transfers the diff must be exactly amount/fee/nonce; (4) invalid variants of the block (bad signature / nonce / balance at every position, flipped state/receipts/tx roots) must be refused with raw chain DB, best block, state root and full dump unchanged and the valid block must connect afterwards. A case = one monitor evaluation; non-trivial = evaluation in which the deciding diff or rejection was actually observed",
+	c.Finish("linear chains from seeded adversarial mixes; per block four monitors on twin processes: (1) block rebuilt without the rejected candidates must be identical; (2) for ERROR receipts the full-dump diff between prefix[:i] and prefix[:i+1] must be exactly nonce+fee; (3) for plain successful transfers the diff must be exactly amount/fee/nonce; (5) the block rebuilt without a tx that failed at run time differs from the block with it by that tx's fee and nonce only (judged when no later tx involves its sender or payer); (4) invalid variants of the block (bad signature / nonce / balance at every position, flipped state/receipts/tx roots) must be refused with raw chain DB, best block, state root and full dump unchanged and the valid block must connect afterwards. A case = one monitor evaluation; non-trivial = evaluation in which the deciding diff or rejection was actually observed",
 		c.Pick(60, 300),
 		"orphan trie nodes in the content-addressed state store are not residue (unobservable): state is compared by root + full dump, the chain DB by raw keys",
 		"fees are taken from the receipt of the same execution")
@@ -76,6 +76,10 @@ func run(c *vf.Ctx, name string, public, withCB bool, nblocks int) {
 		return
 	}
 	g := rig.NewGen(w, c.Rand("gen/"+name))
+	if !public {
+		// chains that are not public know REDEPLOY (the creator replaces a contract's code)
+		g.Kinds = append(append([]string{}, rig.DefaultKinds...), "redeploy", "redeploy-fail", "redeploy-fail", "call-inc", "deploy")
+	}
 	r := c.Rand("mix/" + name)
 	for no := uint64(1); no <= uint64(nblocks); no++ {
 		best, _ := prod.Best()
@@ -271,6 +275,87 @@ func run(c *vf.Ctx, name string, public, withCB bool, nblocks int) {
 			if isErr {
 				c.Sample(map[string]interface{}{"config": name, "block": no, "tx": x.Desc, "status": status, "fee": fee.String(), "diff": diff})
 			}
+		}
+		// (5) a tx that failed at run time leaves nothing that LATER transactions of the block could see: the
+		// block without it differs from the block with it by fee and nonce only. Judged only when no later
+		// transaction involves the failed tx's sender or payer (a missing nonce or fee would legitimately change
+		// their outcome).
+		budgetRm := 2
+		for p, x := range order {
+			if st.Status[p] != "ERROR" || p == len(order)-1 || budgetRm == 0 {
+				continue
+			}
+			sender := rig.AcctID(x.Tx.Body.Account)
+			payer := sender
+			if x.Tx.Body.Type == types.TxType_FEEDELEGATION {
+				payer = rig.AcctID(x.Tx.Body.Recipient)
+			}
+			independent := len(x.Tx.Body.Account) == 33
+			for _, y := range order[p+1:] {
+				for _, id := range []string{rig.AcctID(y.Tx.Body.Account), rig.AcctID(y.Tx.Body.Recipient)} {
+					if id == sender || id == payer {
+						independent = false
+					}
+				}
+				if len(y.Tx.Body.Account) != 33 || strings.HasPrefix(y.Kind, "call-nest") || y.Kind == "call-pay" || y.Kind == "call-payfail" || y.Kind == "call-guarded" {
+					independent = false // named senders and calls that pay out to arbitrary accounts
+				}
+			}
+			if !independent {
+				continue
+			}
+			budgetRm--
+			c.Eval(1)
+			without := append(append([][]byte{}, incBytes[:p]...), incBytes[p+1:]...)
+			ra, ok := produceTwin(without, true)
+			if !ok {
+				return
+			}
+			rb, ok := produceTwin(incBytes, true)
+			if !ok {
+				return
+			}
+			if len(ra.Receipts) != len(order)-1 || len(rb.Receipts) != len(order) {
+				c.Count("removal/not-comparable", 1)
+				continue
+			}
+			da, err1 := twin.Dump(ra.Root)
+			db, err2 := twin.Dump(rb.Root)
+			if err1 != nil || err2 != nil {
+				c.Inconclusive(fmt.Sprintf("%s block %d: dump failed %v %v", name, no, err1, err2))
+				return
+			}
+			var problems []string
+			for q := range ra.Receipts {
+				qq := q
+				if q >= p {
+					qq = q + 1
+				}
+				if ra.Receipts[q].Status != rb.Receipts[qq].Status || ra.Receipts[q].Ret != rb.Receipts[qq].Ret {
+					problems = append(problems, fmt.Sprintf("tx %d (%s): %s %q with the failed tx before it, %s %q without", qq, order[qq].Desc, rb.Receipts[qq].Status, rb.Receipts[qq].Ret, ra.Receipts[q].Status, ra.Receipts[q].Ret))
+				}
+			}
+			cbID := ""
+			if cb != nil {
+				cbID = rig.AcctID(cb.Addr)
+			}
+			for _, e := range rig.ParseDiff(rig.Diff(da, db)) {
+				switch {
+				case e.Field == "nonce" && e.Acct == sender:
+				case e.Field == "balance" && (e.Acct == payer || e.Acct == cbID):
+				default:
+					problems = append(problems, e.Raw)
+				}
+			}
+			c.Count("removal/compared", 1)
+			c.Count("removal/kind/"+x.Kind, 1)
+			if len(problems) > 0 {
+				d := cd
+				d.What = fmt.Sprintf("failed tx at position %d (%s) changes what later transactions do", p, x.Desc)
+				c.Violation(fmt.Sprintf("runtime-error-visible-to-later-txs/%s/v%d", x.Kind, w.Version(no)),
+					fmt.Sprintf("%s block %d: the block with and without the failed tx %d (%s) differ by more than its fee and nonce:\n  %s", name, no, p, x.Desc, strings.Join(problems, "\n  ")), d)
+			}
+			c.Nontrivial(fmt.Sprintf("removal|%s|%d|%d|%s", name, no, p, x.Desc))
 		}
 		// (4) invalid variants of this block
 		blk := rig.DecBlock(rsp.Block)
